@@ -1,6 +1,6 @@
 //! C31 — the policy-compiler CLI honours validation.
 //!
-//! The real binary is rebuilt from the current tree (`cargo build --offline --locked -p
+//! The real binary is rebuilt from the current tree whenever its content fingerprint changed (`cargo build --offline --locked -p
 //! aranya-policy-compiler --bin policy-compiler` in $VERIF_REPO, target dir next to this
 //! checker) and run over the decision table documents × flags × output option. The oracle is
 //! computed in-process from the library: accept ⇔ parse ∧ compile ∧ (--no-validate ∨
@@ -38,9 +38,67 @@ command Foo {
 }
 "#;
 
+/// Multi-definition documents: one definition that fails validation (kind × name position in
+/// label order) among valid definitions of the same and/or other label types.
+/// Label order is by name: aaa < bfn < cact < mcmd < mcmd_r < nnn < xact < yfn < zzz.
+fn multi_definition_documents() -> Vec<(&'static str, &'static str, String)> {
+    const MCMD: &str = "struct Envelope { payload bytes }\ncommand mcmd {\n fields { a int }\n seal { return Envelope { payload: payload } }\n open { return Unit }\n policy {\n finish {}\n }\n recall r() {\n finish {}\n }\n}\n";
+    let valid_fn = |n: &str| format!("function {n}(k int) int {{\n if k > 0 {{\n return 1\n }}\n return 0\n}}\n");
+    let valid_act = |n: &str| format!("action {n}(k int) {{\n if k > 0 {{\n publish mcmd {{ a: k }}\n }} else {{\n publish mcmd {{ a: 0 }}\n }}\n}}\n");
+    let failing = |kind: &str, n: &str| match kind {
+        "function" => format!("function {n}() int {{\n if false {{\n return 0\n }}\n}}\n"),
+        "value" => format!("function {n}(c bool) int {{\n if c {{ let x = 1 }}\n if c {{ let x = 2 }}\n return 0\n}}\n"),
+        _ => format!("action {n}() {{\n if true {{\n publish mcmd {{ a: 0 }}\n }}\n}}\n"),
+    };
+    let mut out: Vec<(&'static str, &'static str, String)> = Vec::new();
+    let leak = |s: String| -> &'static str { Box::leak(s.into_boxed_str()) };
+    for kind in ["function", "value", "action"] {
+        for (pos, name) in [("first", "aaa"), ("middle", "nnn"), ("last", "zzz")] {
+            for neigh in ["same_type", "other_types", "all_types"] {
+                let bad_is_fn = kind != "action";
+                let mut body = String::from(MCMD);
+                let fns = neigh == "all_types" || (neigh == "same_type") == bad_is_fn;
+                let acts = neigh == "all_types" || (neigh == "same_type") != bad_is_fn;
+                if fns {
+                    body.push_str(&valid_fn("bfn"));
+                    body.push_str(&valid_fn("yfn"));
+                }
+                if acts {
+                    body.push_str(&valid_act("cact"));
+                    body.push_str(&valid_act("xact"));
+                }
+                body.push_str(&failing(kind, name));
+                out.push((leak(format!("multi_{kind}_{pos}_{neigh}")), leak(format!("validation:{kind}")), doc(&body)));
+            }
+        }
+    }
+    // two failing definitions (first and last), and the all-valid control
+    let mut body = String::from(MCMD);
+    body.push_str(&failing("function", "aaa"));
+    body.push_str(&valid_fn("bfn"));
+    body.push_str(&valid_act("cact"));
+    body.push_str(&failing("action", "zzz"));
+    out.push(("multi_two_failing_first_and_last", "validation:function", doc(&body)));
+    let mut body = String::from(MCMD);
+    for n in ["aaa", "bfn", "yfn", "zzz"] {
+        body.push_str(&valid_fn(n));
+    }
+    for n in ["cact", "nnn", "xact"] {
+        body.push_str(&valid_act(n));
+    }
+    out.push(("multi_all_valid", "valid", doc(&body)));
+    out
+}
+
 /// (name, intended class, text). The class actually observed in-process is what the oracle uses;
 /// the intended class only feeds the vacuity guards.
 fn documents() -> Vec<(&'static str, &'static str, String)> {
+    let mut v = base_documents();
+    v.extend(multi_definition_documents());
+    v
+}
+
+fn base_documents() -> Vec<(&'static str, &'static str, String)> {
     let with_cmd = |s: &str| doc(&format!("{CMD}\n{s}"));
     vec![
         ("no_front_matter", "parse_error", "```policy\naction a() {}\n```\n".to_string()),
@@ -79,6 +137,8 @@ struct Oracle {
     compile: bool,
     /// true = validation failed (the library's convention)
     validation_failed: Option<bool>,
+    /// what the library's validate() returned for the whole module
+    library_validate: Option<bool>,
     analyzers_failing: Vec<String>,
 }
 
@@ -141,19 +201,78 @@ fn analyzers_failing(module: &Module) -> Vec<String> {
 
 fn oracle(text: &str, stub_ffi: bool) -> Oracle {
     let Ok(ast) = parse_policy_document(text) else {
-        return Oracle { parse: false, compile: false, validation_failed: None, analyzers_failing: vec![] };
+        return Oracle { parse: false, compile: false, validation_failed: None, library_validate: None, analyzers_failing: vec![] };
     };
     let Ok(module) = Compiler::new(&ast).stub_ffi(stub_ffi).compile() else {
-        return Oracle { parse: true, compile: false, validation_failed: None, analyzers_failing: vec![] };
+        return Oracle { parse: true, compile: false, validation_failed: None, library_validate: None, analyzers_failing: vec![] };
     };
-    let failed = quiet_stdout(|| validate(&module));
-    Oracle { parse: true, compile: true, validation_failed: Some(failed), analyzers_failing: analyzers_failing(&module) }
+    // "Fails validation" = some label has a trace failure. This is aggregated here, label by
+    // label with the library's analyzers, so that the oracle does not depend on how the
+    // library's validate() combines the per-label results; validate() itself is recorded too.
+    let library_says_failed = quiet_stdout(|| validate(&module));
+    let failing = analyzers_failing(&module);
+    let any_failed = !failing.is_empty();
+    Oracle { parse: true, compile: true, validation_failed: Some(any_failed), library_validate: Some(library_says_failed), analyzers_failing: failing }
 }
 
-fn build_cli(repo: &Path) -> PathBuf {
+/// Content fingerprint of everything the CLI build can depend on inside the repository: every
+/// file under crates/ (target dirs excluded) plus the workspace manifest, lock file, toolchain
+/// file and .cargo config. Content-based (not mtime-based) so that switching between trees
+/// (bind-mounted mutants) can never reuse a binary built from other sources.
+fn tree_fingerprint(repo: &Path) -> String {
+    fn walk(dir: &Path, out: &mut Vec<PathBuf>) {
+        let Ok(rd) = std::fs::read_dir(dir) else { return };
+        for e in rd.flatten() {
+            let p = e.path();
+            let name = p.file_name().and_then(|n| n.to_str()).unwrap_or("");
+            if p.is_dir() {
+                if name == "target" || name == ".git" {
+                    continue;
+                }
+                walk(&p, out);
+            } else {
+                out.push(p);
+            }
+        }
+    }
+    let mut files = Vec::new();
+    walk(&repo.join("crates"), &mut files);
+    walk(&repo.join(".cargo"), &mut files);
+    for f in ["Cargo.toml", "Cargo.lock", "rust-toolchain.toml"] {
+        files.push(repo.join(f));
+    }
+    files.sort();
+    let mut h: u64 = 0xcbf29ce484222325;
+    let mut h2: u64 = 0x9e3779b97f4a7c15;
+    let mut n = 0u64;
+    for f in &files {
+        let rel = f.strip_prefix(repo).unwrap_or(f).display().to_string();
+        let data = std::fs::read(f).unwrap_or_default();
+        for b in rel.as_bytes().iter().chain([0u8].iter()).chain(data.iter()) {
+            h ^= *b as u64;
+            h = h.wrapping_mul(0x100000001b3);
+            h2 = (h2 ^ (*b as u64)).wrapping_mul(0xff51afd7ed558ccd).rotate_left(23);
+        }
+        h ^= data.len() as u64;
+        h = h.wrapping_mul(0x100000001b3);
+        n += 1;
+    }
+    format!("{n}:{h:016x}{h2:016x}")
+}
+
+/// Returns (binary, whether cargo was invoked).
+fn build_cli(repo: &Path) -> (PathBuf, bool) {
     let exe = std::env::current_exe().unwrap_or_else(|e| mcx::machinery_error(&format!("current_exe: {e}")));
     // <ws>/target-p/release/vm-check -> <ws>/target-p/cli
     let target = exe.parent().and_then(|p| p.parent()).map(|p| p.join("cli")).unwrap_or_else(|| mcx::machinery_error("cannot derive CLI target dir"));
+    let bin = target.join("debug").join("policy-compiler");
+    let stamp = target.join("vm-check-source-fingerprint");
+    let fp = tree_fingerprint(repo);
+    // The binary is reused only if it was built by this checker from byte-identical sources.
+    if bin.is_file() && std::fs::read_to_string(&stamp).is_ok_and(|s| s == fp) {
+        return (bin, false);
+    }
+    let _ = std::fs::remove_file(&stamp);
     let mut cmd = Command::new("cargo");
     cmd.current_dir(repo)
         .args(["build", "--offline", "--locked", "-p", "aranya-policy-compiler", "--bin", "policy-compiler"])
@@ -165,11 +284,14 @@ fn build_cli(repo: &Path) -> PathBuf {
     if !out.clean() {
         mcx::machinery_error(&format!("building policy-compiler from {} failed: {}", repo.display(), out.stderr.lines().rev().take(30).collect::<Vec<_>>().into_iter().rev().collect::<Vec<_>>().join("\n")));
     }
-    let bin = target.join("debug").join("policy-compiler");
     if !bin.is_file() {
         mcx::machinery_error(&format!("{} not produced", bin.display()));
     }
-    bin
+    // the tree must not have changed while cargo ran
+    if tree_fingerprint(repo) == fp {
+        let _ = std::fs::write(&stamp, &fp);
+    }
+    (bin, true)
 }
 
 fn loadable(path: &Path) -> Result<(), String> {
@@ -210,8 +332,9 @@ pub fn run(args: &Args) {
     let mut rep = Report::new(args, Level::Exploration);
     let repo = PathBuf::from(std::env::var("VERIF_REPO").unwrap_or_else(|_| "/repo".into()));
     let t0 = std::time::Instant::now();
-    let cli = build_cli(&repo);
+    let (cli, cargo_ran) = build_cli(&repo);
     rep.set("cli_build_s", (t0.elapsed().as_secs_f64() * 10.0).round() / 10.0);
+    rep.set("cli_cargo_invoked", cargo_ran);
     rep.set("cli_binary", cli.display().to_string());
     let docs = documents();
     let by_name: BTreeMap<&str, &String> = docs.iter().map(|d| (d.0, &d.2)).collect();
@@ -306,12 +429,18 @@ pub fn run(args: &Args) {
             nontrivial.insert(i);
         }
         rep.count(&format!("rows_{class}"), 1);
+        if row.doc.starts_with("multi_") {
+            rep.count(&format!("rows_multi_definition_{class}"), 1);
+        }
+        if orc.library_validate.is_some() && orc.library_validate != orc.validation_failed {
+            rep.count("rows_where_library_validate_differs_from_per_label_verdict", 1);
+        }
         for a in &orc.analyzers_failing {
             rep.count(&format!("rows_failing_analyzer_{a}"), 1);
         }
         let flags = format!("{}{}{}", if row.no_validate { "--no-validate " } else { "" }, if row.stub_ffi { "--stub-ffi " } else { "" }, if row.dash_o { "-o custom.out" } else { "" });
         let replay = json!({"doc": row.doc, "no_validate": row.no_validate, "stub_ffi": row.stub_ffi, "dash_o": row.dash_o, "flags": flags.trim(), "document_text": text});
-        table.push(json!({"doc": row.doc, "flags": flags.trim(), "oracle": {"parse": orc.parse, "compile": orc.compile, "validation_failed": orc.validation_failed, "analyzers": orc.analyzers_failing}, "expected": if expect_accept { "accept" } else { "reject" }, "cli": exit_desc, "module_written": wrote, "module_loads": load.is_ok()}));
+        table.push(json!({"doc": row.doc, "flags": flags.trim(), "oracle": {"parse": orc.parse, "compile": orc.compile, "validation_failed": orc.validation_failed, "library_validate": orc.library_validate, "analyzers": orc.analyzers_failing}, "expected": if expect_accept { "accept" } else { "reject" }, "cli": exit_desc, "module_written": wrote, "module_loads": load.is_ok()}));
         let val = if row.no_validate { "off" } else { "on" };
         let detail = format!(
             "document `{}` ({class}; oracle parse={} compile={} validation_failed={:?}) with flags [{}]: CLI {exit_desc}, module written: {wrote} ({}), stdout: {}",
@@ -356,12 +485,12 @@ pub fn run(args: &Args) {
     rep.set("decision_table", table);
     rep.set("distinct_nontrivial", nontrivial.len() as u64);
     rep.set("documents", docs.iter().map(|d| json!({"name": d.0, "intended": d.1})).collect::<Vec<_>>());
-    rep.set("rule", "decision table: 18 documents (parse errors, compile errors, one or more per validator analyzer that can fail on compiler output (function return, value set twice, action publish), valid with and without FFI use) × {∅, --no-validate} × {∅, --stub-ffi} × {default output path, -o}; each row runs the freshly built policy-compiler binary; oracle computed in-process from parse_policy_document / Compiler / validate. non-trivial = distinct rows whose document parses (gets past the CLI's first check)");
+    rep.set("rule", "decision table: 18 single-purpose documents (parse errors, compile errors, one or more per validator analyzer that can fail on compiler output (function return, value set twice, action publish), valid with and without FFI use) plus 29 multi-definition documents (failing kind × the failing definition sorting first / in the middle / last in label order × valid neighbours of the same type / other types / all types; two failing definitions; all valid) × {∅, --no-validate} × {∅, --stub-ffi} × {default output path, -o}; each row runs the freshly built policy-compiler binary; oracle computed in-process from parse_policy_document / Compiler / validate. non-trivial = distinct rows whose document parses (gets past the CLI's first check)");
     rep.set("exhaustive", true);
-    for c in ["rows_parse_error", "rows_compile_error", "rows_validation_failure", "rows_valid", "rows_failing_analyzer_function", "rows_failing_analyzer_value", "rows_failing_analyzer_action"] {
+    for c in ["rows_parse_error", "rows_compile_error", "rows_validation_failure", "rows_valid", "rows_failing_analyzer_function", "rows_failing_analyzer_value", "rows_failing_analyzer_action", "rows_multi_definition_validation_failure", "rows_multi_definition_valid"] {
         rep.require_nonzero(c);
     }
     rep.assume("with --stub-ffi the tool documents that it writes no module; those rows are judged on the exit status only");
-    rep.assume("the in-process library (validate returns true when a trace failed) is the oracle for what 'passes validation' means");
+    rep.assume("'fails validation' means: some label of the compiled module has a trace failure under the library's analyzers (function return, action publish, finish, value), aggregated by the checker label by label; the library's own validate() verdict is recorded per row but is not the oracle");
     rep.finish()
 }
